@@ -4,14 +4,31 @@ from pathlib import Path
 
 V = Path(__file__).resolve().parent.parent
 
+T = "Coq proof by induction over histories + differential correspondence (vm_compute) + impl oracle"
+N = ("Trusted: Coq kernel + vm_compute; hand-written model tied by lock-step correspondence (harness, snapshot of private "
+     "fields, id canonicalisation); CPython list/identity semantics as modelled; well-typed calls only.")
 CLAIMED = {
+    "C01": dict(
+        text="Proof (full): for every history of the whole structure/explicit API the association is symmetric and duplicate-free "
+             "(link_inv_reachable), raising link calls change nothing, the vertex<->link mutual recursion terminates; the fuelled "
+             "transliteration equals plain reference edits. Tied by lock-step histories compared field by field after every call.",
+        note=N, design="6/C01", technique=T),
+    "C02": dict(
+        text="Proof (full): symmetric, duplicate-free membership for every history incl. nested/self-member universes "
+             "(uni_inv_reachable); insertion order, removal order, frame and ValueError-with-no-change characterised per call.",
+        note=N, design="6/C02", technique=T),
     "C18": dict(
         text="Proof (full): theorems over all histories of constructions/clears over any set of classes "
              "(same instance between clears, __init__ once with first args, own instance per class, clear frame rules), "
              "tied to the code by lock-step correspondence of random histories evaluated in Coq's kernel.",
         note="Trusted: Coq kernel + vm_compute; hand-written model TrueSingle.v tied by correspondence (harness, id canonicalisation); "
              "CPython dict/identity semantics; class objects truthy and hashed by identity.",
-        design="6/C18", technique="Coq proof by induction over histories + differential correspondence (vm_compute) + impl oracle"),
+        design="6/C18", technique=T),
+    "C19": dict(
+        text="Proof (full for the binding; partial for rule attributes): u.laws is L <-> L.applies_to is u after every history "
+             "(laws_inv_reachable), every assignment succeeds with its documented effect and frame. Rule attributes' read-back and "
+             "immutability are outside the Coq model and decided by an exhaustive implementation-side leg.",
+        note=N + " UniverseLaws(applies_to=u) is outside the statement's op set (proved necessary).", design="6/C19", technique=T),
 }
 
 PENDING_REASON = "check not built yet in this session (planned: DESIGN.md section 6); not claimed until its theorem and tie exist"
